@@ -1792,3 +1792,80 @@ def _forward_open_rule(ctx):
 
 rule("C10", "D10.11", "T-WITNESS", floor=20)(_close_rule)
 rule("C10", "D10.12", "T-WITNESS", floor=6)(_forward_open_rule)
+
+
+# ---------------------------------------------------------------------------------------------------------------- MapMeta
+def _mapmeta_rule(ctx):
+    """MapMeta folded on witness class bodies: the lookup table holds every public member under its name and its lower-case
+    name, and (unless switched off) every value - or its `_value_key_` - under the member's lower-case name; private names and
+    class / static methods are not members; `[]`, `get` and `in` fold text keys to lower case before they consult that one
+    table, `[]` raises KeyError for a missing key, `get` gives the default; text results are upper-cased when the table says so."""
+    mm = ctx.model.cls("pycomm3.map:MapMeta")
+    new, getitem, get, contains = (mm.methods.get(n) for n in ("__new__", "__getitem__", "get", "__contains__"))
+    if not all((new, getitem, get, contains)):
+        ctx.undecided(ckey(mm.key, "witness"), mm.node, "MapMeta methods not found")
+        return
+    cm = Obj(kind="classmethod")
+    vk = Obj(kind="value-key")
+
+    def hook(call, env, it):
+        n = call_name(call) or ""
+        f = call.func
+        if isinstance(f, ast.Attribute) and f.attr == "__new__" and isinstance(f.value, ast.Call) and getattr(f.value.func, "id", "") == "super":
+            cd_ = it.ev(call.args[-1], env)
+            o = Obj(kind="enumcls")
+            o.__dict__["__dict__"] = cd_
+            return o
+        if n == "isinstance" and len(call.args) == 2 and "classmethod" in ast.unparse(call.args[1]):
+            return it.ev(call.args[0], env) is cm
+        if isinstance(f, ast.Name) and env.get(f.id) is vk:
+            v = it.ev(call.args[0], env)
+            return ("key-of", v)
+        return UNKNOWN
+
+    def build(body):
+        p = [a.arg for a in new.args.args]
+        kind, res = run_function(ctx, mm.module, new, {p[0]: Obj(kind="metaclass"), p[1]: "W", p[2]: (), p[3]: dict(body)}, call_hook=hook, deep=False)
+        return kind, res
+
+    def look(enumcls, meth, *args):
+        p = [a.arg for a in meth.args.args]
+        env = {p[0]: enumcls}
+        env.update(zip(p[1:], args))
+        for a_, d_ in zip(p[len(p) - len(meth.args.defaults):], meth.args.defaults):
+            if a_ not in env:
+                env[a_] = ctx.folder.eval(d_, mm.module)
+        return run_function(ctx, mm.module, meth, env, call_hook=hook, deep=False)
+
+    base = {"__module__": "m", "__qualname__": "W", "alpha": 1, "Beta": 2, "GAMMA": b"\x03", "_private": 9, "helper": cm, "text": "some text"}
+    variants = [("plain", base, False), ("caps only", dict(base, _return_caps_only_=True), True), ("one-directional", dict(base, _bidirectional_=False), False), ("custom value key", dict(base, _value_key_=vk), False)]
+    for label, body, caps in variants:
+        kind, e = build(body)
+        key = ckey(mm.key + ".__new__", f"witness:{label}")
+        if kind != "return" or not isinstance(e, Obj):
+            (ctx.undecided if kind == "unknown" else ctx.violation)(key, new, f"MapMeta.__new__ on the {label} witness: {kind} {e!r}")
+            continue
+        members = e.__dict__.get("_members_")
+        up = (lambda s_: s_.upper()) if caps else (lambda s_: s_)
+        bidir = body.get("_bidirectional_", True)
+        rk = (lambda v: ("key-of", v)) if "_value_key_" in body else (lambda v: v)
+        want = {"alpha": 1, "Beta": 2, "GAMMA": b"\x03", "text": "some text", "beta": 2, "gamma": b"\x03"}
+        if bidir:
+            want.update({rk(1): "alpha", rk(2): "beta", rk(b"\x03"): "gamma", rk("some text"): "text"})
+        ctx.check(isinstance(members, dict) and members == want and list(e.__dict__.get("_attributes", [])) == ["alpha", "Beta", "GAMMA", "text"], key, new, f"{label}: lookup table {sorted(map(repr, want))[:4]}... and attribute list as documented",
+                  f"MapMeta.__new__ ({label}) builds the table {members!r} with attributes {e.__dict__.get('_attributes')!r}; expected {want!r} and ['alpha', 'Beta', 'GAMMA', 'text']")
+        if not isinstance(members, dict):
+            continue
+        probes = [("getitem", getitem, ("BETA",), ("return", 2)), ("getitem", getitem, ("alpha",), ("return", 1)), ("getitem", getitem, ("Gamma",), ("return", b"\x03")), ("getitem", getitem, ("nope",), ("raise", "KeyError")),
+                  ("getitem", getitem, (7,), ("raise", "KeyError")), ("get", get, ("BeTa",), ("return", 2)), ("get", get, ("nope",), ("return", None)), ("get", get, ("nope", 5), ("return", 5)), ("get", get, (7, "d"), ("return", up("d"))),
+                  ("contains", contains, ("ALPHA",), ("return", True)), ("contains", contains, ("nope",), ("return", False)), ("contains", contains, (7,), ("return", False)), ("getitem", getitem, ("TEXT",), ("return", up("some text")))]
+        if bidir and "_value_key_" not in body:
+            probes += [("getitem", getitem, (1,), ("return", up("alpha"))), ("get", get, (2,), ("return", up("beta"))), ("get", get, (b"\x03",), ("return", up("gamma"))), ("contains", contains, (1,), ("return", True))]
+        if not bidir:
+            probes += [("get", get, (1,), ("return", None)), ("contains", contains, (1,), ("return", False))]
+        for op, meth, args, want_r in probes:
+            kind, res = look(e, meth, *args)
+            _report(ctx, ckey(f"{mm.key}.{meth.name}", f"witness:{label}:{args!r}"), meth, f"{label}: {op}{args!r}", (kind, res), want_r, f"MapMeta.{meth.name}")
+
+
+rule("C19", "D19.9", "T-WITNESS", floor=40)(_mapmeta_rule)
